@@ -285,6 +285,9 @@ class ExprMixin:
             return self.ev(node.body)
         if z3.is_false(ts):
             return self.ev(node.orelse)
+        if not getattr(self, 'spec_mode', 0) and isinstance(node.body, ast.Constant) and isinstance(node.orelse, ast.Constant):
+            # two literal alternatives: forking keeps the value concrete
+            return self.ev(node.body) if self.branch(t) else self.ev(node.orelse)
         a = self.speculate(t, node.body)
         if a is VACUOUS:
             return self.ev(node.orelse)
